@@ -64,6 +64,11 @@ pub fn many_entries(n: usize, sec: usize, salt: u64) -> PktM {
 }
 
 pub fn run(ctx: &mut Ctx) {
+    if let Some(tape) = ctx.tape_case() {
+        // replay of a case found by the coverage-guided `model` target: the tape drives every generator decision
+        super::model_case("C02", ctx, &tape);
+        return;
+    }
     let tier = ctx.tier;
     let scale = if ctx.slow_tool { 0 } else { tier.pick(10u64, 1500u64) };
 
